@@ -24,6 +24,7 @@ def is_tail_op(op):
 def run(F, R, ctx):
     _run9(F, R, ctx)
     classification_rule(F, R)
+    depth_balance_rule(F, R)
     if "jit2" in (F.meta.get("features") or []):
         native_tail_rule(F, R)
 
@@ -267,3 +268,41 @@ def native_tail_rule(F, R):
                "per iteration of a tail-recursive loop" % (fn.short(), fn.blocks[ind[0]].get("line") if ind else ""),
                fn.loc(fn.blocks[ind[0]].get("line") if ind else None), sample=True)
     R.floor("C09.f", "JIT helpers that hand the frame over to a tail callee", n, 2)
+
+
+def depth_balance_rule(F, R):
+    R.rule("C09.g", "the interpreter's nesting counter (VmCore.depth, compared with the limit that raises 'stack overflow') counts "
+                    "nested runs, not iterations: in every function that raises it, no increment lies on a cycle that can come "
+                    "round again without passing a decrement, and every path from an increment to a return passes a decrement. "
+                    "An increment inside the retry loop of a nested run (one turn per error handled in a native callback) with a "
+                    "single decrement after the loop leaks one unit per turn, and a flat tail-recursive loop is later refused "
+                    "with a bogus stack overflow")
+    n = 0
+    for name, fn in sorted(F.fns.items()):
+        if not name.startswith("steel::steel_vm::"):
+            continue
+        incs, decs = [], []
+        for i, b in enumerate(fn.blocks):
+            if b["c"]:
+                continue
+            for e in b["e"]:
+                if e[0] == "binop" and e[1] in ("AddWithOverflow", "SubWithOverflow", "Add", "Sub") and \
+                        any(re.search(r"^\(\*_1\)\.depth$", str(x)) for x in e[5:]) and \
+                        any(ev[0] == "fld" and ev[1] == "VmCore" and ev[2] == "depth" for ev in b["e"]):
+                    (incs if e[1].startswith("Add") else decs).append(i)
+        if not incs:
+            continue
+        n += 1
+        bad = None
+        for i in incs:
+            if i in fn.reachable_from(fn.succ(i), avoid=set(decs)):
+                bad = (i, "comes round to itself without a decrement")
+                break
+            if set(fn.returns()) & fn.reachable_from(fn.succ(i), avoid=set(decs)):
+                bad = (i, "reaches a return without a decrement")
+                break
+        R.inst("C09.g", "%s / every increment of VmCore.depth is paired with a decrement" % fn.short(), bad is None,
+               bad and ("%s raises VmCore.depth (line %s) on a path that %s: the counter grows with the number of turns, not with "
+                        "the nesting — after enough errors handled inside native callbacks a flat loop is refused as a stack "
+                        "overflow" % (fn.short(), fn.blocks[bad[0]].get("line") or "?", bad[1])), fn.loc(), sample=True)
+    R.floor("C09.g", "functions raising VmCore.depth", n, 1)
